@@ -400,6 +400,28 @@ def _fam_qp_inf_region(rng, n, spec):
     return f, g, dict(convex=False, wild=True, inf_region=dict(a=a, state=st, margin=float(np.exp(rng.uniform(np.log(0.05), np.log(2.0)))), A=A, b=b))
 
 
+def _fam_edge_walk(rng, n, spec):
+    """-x_0 + amp*sin(freq*x_0) + 0.5*|x_1..|^2, defined for x_0 <= L only (+inf and a nan gradient beyond): the descent walks towards the
+    edge of the domain and line searches step over it after a first improving trial. Not in ALL_FAMILIES."""
+    L = float(rng.uniform(5.0, 40.0))
+    amp = float(rng.uniform(0.1, 0.9))
+    freq = float(rng.uniform(0.8, 2.5))
+
+    def f(x):
+        if x[0] > L:
+            return float("inf")
+        return float(-x[0] + amp * np.sin(freq * x[0]) + 0.5 * np.sum(x[1:] ** 2))
+
+    def g(x):
+        if x[0] > L:
+            return np.full(x.shape, np.nan)
+        out = np.array(x, dtype=float, copy=True)
+        out[0] = -1.0 + amp * freq * np.cos(freq * x[0])
+        return out
+
+    return f, g, dict(convex=False, wild=True, edge=L)
+
+
 def _fam_sqrt_floor(rng, n, spec):
     """sum(w_i*sqrt(x_i)) + 0.5*|x - a|^2 on x >= 0 (make_problem puts the lower bounds at 0): the minimiser of the variables with
     a_i <= 0 is the bound itself, where the gradient is +inf. Not in ALL_FAMILIES."""
@@ -486,6 +508,7 @@ _FAMILIES = {
     "qp_inf_region": _fam_qp_inf_region,
     "qp_nan_region": _fam_qp_inf_region,
     "sqrt_floor": _fam_sqrt_floor,
+    "edge_walk": _fam_edge_walk,
     "badly_scaled": _fam_badly_scaled,
     "quartic": _fam_quartic,
     "sphere": _fam_sphere,
@@ -556,6 +579,10 @@ def make_problem(spec) -> Problem:
         g0 = ir["A"] @ x0 - ir["b"]
         ir["a"][:] = -g0 / max(float(np.linalg.norm(g0)), 1e-300)
         ir["state"]["thr"] = float(ir["a"] @ x0) + ir["margin"]
+    if meta.get("edge") is not None:
+        lb = np.where(np.isfinite(lb), np.minimum(lb, -3.0), lb)
+        ub = np.where(np.isfinite(ub), np.maximum(ub, meta["edge"] + 10.0), ub)  # the box does not protect the domain
+        x0 = np.clip(np.clip(x0, -3.0, 3.0), lb, ub)
     if meta.get("floor_zero"):
         lb = np.zeros(n)
         ub = np.where(np.isfinite(ub) & (ub > 0.5), ub, np.inf)
